@@ -21,7 +21,7 @@ OP_KINDS = [
     "append", "insert", "extend", "iadd", "isub", "add", "union", "setitem", "setslice",
     "delitem", "delslice", "pop", "popi", "remove", "remove_id", "sort", "reverse", "copy",
     "pickle", "getslice", "binadd", "binsub", "query", "ctor", "replace_on_id", "rename",
-    "get_by_any", "deepcopy",
+    "get_by_any", "deepcopy", "clear", "imul",
 ]
 
 
@@ -168,11 +168,25 @@ class World:
                 new_ref = before + [U[op["x"]]]
                 dl.add(U[op["x"]])
             elif k == "union":
-                new_ref = list(before)
-                for o in objs():
-                    if all(o.id != r.id for r in new_ref):
-                        new_ref.append(o)
-                dl.union(objs())
+                other, oth_list = operand()
+                if oth_list == "raises":
+                    new_ref = "raises"
+                else:
+                    new_ref = list(before)
+                    for o in oth_list:
+                        if all(o.id != r.id for r in new_ref):
+                            new_ref.append(o)
+                dl.union(other)
+            elif k == "clear":
+                new_ref = []
+                dl.clear()
+            elif k == "imul":
+                # in-place repetition: 0 empties the list, 1 changes nothing, more would duplicate every identifier
+                n_ = op["n"]
+                new_ref = [] if n_ <= 0 else list(before) if (n_ == 1 or not before) else "raises"
+                dl *= n_
+                if dl is not self.dl:
+                    raise Violation("content", {"what": "*= returned another list"})
             elif k == "setitem":
                 new_ref = list(before)
                 try:
@@ -427,7 +441,7 @@ def _gen_op(rng, w, kinds, weights):
         op.update(i=idx(), x=x())
     elif k in ("extend", "iadd", "union", "binadd", "binsub"):
         op["xs"] = xs()
-        if k in ("extend", "iadd", "binadd") and rng.random() < 0.12:
+        if k in ("extend", "iadd", "binadd", "union") and rng.random() < 0.12:
             # the iterable itself fails part-way, or one of its entries is not an identified object: nothing may stick
             op["as"] = rng.choice(["raising_iter", "bad_entry"])
             op["after"] = rng.randint(0, 3)
@@ -459,6 +473,8 @@ def _gen_op(rng, w, kinds, weights):
         op["x"] = w.universe.index(rng.choice(w.ref)) if n and rng.random() < 0.7 else x()
     elif k == "remove_id":
         op["id"] = rng.choice(ALPHABET)
+    elif k == "imul":
+        op["n"] = rng.choice([0, 1, 2, -1, 3])
     elif k == "sort":
         op.update(key=rng.choice(["id", "id", "rev", "name"]), reverse=rng.random() < 0.5)
         if rng.random() < 0.15:
